@@ -23,6 +23,21 @@ func broadcasterFacts(s *src, f *facts) {
 		return fd.Recv.List[0].Names[0].Name
 	}
 
+	// one critical section per operation: exactly one Lock() call, and every Unlock() either ends the
+	// function (followed by return / end of body) or is the single release before the blocking part
+	oneSection := func(fd *ast.FuncDecl) bool {
+		if fd == nil {
+			return false
+		}
+		b := recvName(fd)
+		locks := all(fd.Body, func(c *ast.CallExpr) bool { return s.str(c.Fun) == b+".lock.Lock" })
+		rlocks := all(fd.Body, func(c *ast.CallExpr) bool { return strings.HasSuffix(s.str(c.Fun), ".RLock") || strings.HasSuffix(s.str(c.Fun), ".TryLock") })
+		return len(locks) == 1 && len(rlocks) == 0
+	}
+	f.b("bcReceiveOneSection", oneSection(rcv), s.pos(rcv))
+	f.b("bcFreeOneSection", oneSection(fre), s.pos(fre))
+	f.b("bcCloseOneSection", oneSection(cls), s.pos(cls))
+	f.b("bcPublishOneLookupSection", oneSection(pub), s.pos(pub))
 	// ---- Publish
 	{
 		b := recvName(pub)
